@@ -320,6 +320,29 @@ fn per_opcode_programs() -> Vec<Vec<u8>> {
     out
 }
 
+/// `v` of about `limit` nodes (CALLER + CALLER + ...), stored to a slot, loaded from it again and used.
+fn near_limit_program(rng: &mut StdRng, limit: usize) -> Vec<u8> {
+    let mut c: Vec<u8> = Vec::new();
+    for round in 0..rng.gen_range(1..4u8) {
+        // 2k + 1 nodes with k additions
+        let want = (limit as i64 + rng.gen_range(-3..=2)).max(1) as usize;
+        c.push(0x33);
+        for _ in 0..(want.saturating_sub(1) / 2).min(600) {
+            c.extend([0x33, 0x01]);
+        }
+        let slot = round % 2;
+        c.extend([0x60, slot, 0x55, 0x60, slot, 0x54]); // sstore(slot, v); sload(slot)
+        match rng.gen_range(0..4) {
+            0 => c.extend([0x60, 0x01, 0x01, 0x60, 0x09, 0x55]), // + 1, stored elsewhere
+            1 => c.extend([0x80, 0x01, 0x60, 0x09, 0x55]),       // doubled
+            2 => c.extend([0x60, 0x80, 0x52]),                   // kept in memory
+            _ => c.push(0x50),
+        }
+    }
+    c.push(0x00);
+    c
+}
+
 pub fn sizes_trace(o: &Opts) -> R<()> {
     let seed: u64 = o.num("seed", 1);
     let n: usize = o.num("programs", 100);
@@ -345,6 +368,9 @@ pub fn sizes_trace(o: &Opts) -> R<()> {
         } else {
             *[1usize, 2, 3, 5, 8, 16, 20, 50, 64, 100, 250, 251, 1000].choose(&mut rng).unwrap()
         };
+        // every fifth program is built for its limit: a value just below, at and just beyond the limit is
+        // stored, read back from the same slot, and built upon
+        let code = if i < n && i % 5 == 4 { near_limit_program(&mut rng, limit) } else { code };
         let lim = Limits { l: *[2usize, 5, 12].choose(&mut rng).unwrap(), f: 3, g: 30_000_000, perm: true };
         let cfg = vm_config(&lim).with_value_size_limit(limit);
         let code2 = code.clone();
